@@ -24,8 +24,8 @@ structure RegAccepts (W : World) (c : RegCred) (e : RegExpect) (r : VerifiedReg)
   tbOk : tokenBindingRejects cd.tokenBinding tokenBindingStatusesReg = false
   aoOk : parseAttObj c.attestationObject = .ok ao
   rpOk : ao.authData.rpIdHash = W.sha256 (utf8 e.rpId)
-  upOk : regUpRejects e.requireUP ao.authData.flags.up = false
-  uvOk : regUvRejects e.requireUV ao.authData.flags.uv = false
+  upOk : regUpRejects e.requireUP e.requireUV ao.authData.flags.up ao.authData.flags.uv = false
+  uvOk : regUvRejects e.requireUP e.requireUV ao.authData.flags.up ao.authData.flags.uv = false
   attOk : ao.authData.attested = some att
   credIdOk : att.credentialId.isEmpty = false
   keyBytesOk : att.publicKey.isEmpty = false
